@@ -45,7 +45,12 @@ def spec_term(module, fname, args, reg=None):
     fr.module = module
     state.frames.append(fr)
     fv = ex.module_attr(state, module, fname)
-    r = calls.inline_call(ex, state, fv, [wrap(a) for a in args], {})
+    from . import engine
+    engine.NAMING[0] = False
+    try:
+        r = calls.inline_call(ex, state, fv, [wrap(a) for a in args], {})
+    finally:
+        engine.NAMING[0] = True
     return z3.simplify(unwrap(r))
 
 
